@@ -4,6 +4,7 @@ use crate::report::Ctx;
 use serde_json::Value;
 
 pub mod util;
+pub mod c01;
 pub mod c02;
 pub mod c03;
 pub mod c04;
@@ -46,6 +47,7 @@ pub fn dispatch(prop: &str, m: &Model, ctx: &mut Ctx, facts: Option<&Value>) -> 
         }
     }
     match prop {
+        "C01" => c01::run(m, ctx),
         "C02" => c02::run(m, ctx),
         "C03" => c03::run(m, ctx),
         "C04" => c04::run(m, ctx),
